@@ -502,6 +502,10 @@ C_KEYWORDS = {'auto', 'break', 'case', 'char', 'const', 'continue', 'default', '
               'for', 'goto', 'if', 'int', 'long', 'register', 'return', 'short', 'signed', 'sizeof', 'static', 'struct', 'switch',
               'typedef', 'union', 'unsigned', 'void', 'volatile', 'while', 'inline', 'restrict', 'main'}
 
+# libc entry points that CBMC gives built-in meanings we do not want (its abort() is assume(false) and would hide aborts)
+CLASHING_EXTERNALS = {'__assert_fail': 'vf_assert_fail', 'abort': 'vf_abort_call', 'exit': 'vf_exit_call', '_exit': 'vf_exit_call',
+                      'memcpy': 'vf_memcpy', 'memmove': 'vf_memmove', 'memset': 'vf_memset'}
+
 def sanitize(name):
     s = re.sub(r'[^A-Za-z0-9_]', '_', name)
     if not s or s[0].isdigit(): s = '_' + s
@@ -529,6 +533,7 @@ class Emitter:
         base = name[1:]
         if base in self.replace:
             base = self.replace[base]
+        base = CLASHING_EXTERNALS.get(base, base)
         c = sanitize(base)
         if re.fullmatch(r'[A-Za-z_][A-Za-z0-9_]*', base) and base not in C_KEYWORDS:
             c = base
@@ -1236,6 +1241,10 @@ class FnTranslator(FnEmitter):
         while cv.kind == 'cexpr' and cv.v == 'bitcast': cv = cv.ops[0]
         if cv.kind == 'global': direct = cv.v
         name = direct[1:] if direct else None
+        if name == '__vf_model_bound':
+            out.append('VF_MODEL_BOUND("MODEL-BOUND container capacity exceeded (raise MINISTL_MINCAP)");')
+            if op == 'invoke': out.append(self.edge(normal))
+            return
         if name in ('vf_assert', 'vf_witness'):
             lit = self.cstring_of(args[-1])
             if name == 'vf_assert':
@@ -1429,7 +1438,12 @@ u64 vf_cttz8(u64); u64 vf_cttz16(u64); u64 vf_cttz32(u64); u64 vf_cttz64(u64);
 u64 vf_ctpop8(u64); u64 vf_ctpop16(u64); u64 vf_ctpop32(u64); u64 vf_ctpop64(u64);
 u64 vf_bswap16(u64); u64 vf_bswap32(u64); u64 vf_bswap64(u64);
 #ifdef __CPROVER__
+#ifdef VF_WITNESS
+#define VF_ASSERT(c, msg) ((void)(c))
+#else
 #define VF_ASSERT(c, msg) __CPROVER_assert((c), msg)
+#endif
+#define VF_MODEL_BOUND(msg) do { __CPROVER_assert(0, msg); __CPROVER_assume(0); } while (0)
 #ifdef VF_WITNESS
 #define VF_WITNESS(msg) __CPROVER_assert(0, msg)
 #else
@@ -1439,6 +1453,7 @@ u64 vf_bswap16(u64); u64 vf_bswap32(u64); u64 vf_bswap64(u64);
 void vf_assert_native(int c, const char *label);
 #define VF_ASSERT(c, msg) vf_assert_native((c), msg)
 #define VF_WITNESS(msg) ((void)0)
+#define VF_MODEL_BOUND(msg) ((void)0)
 #endif
 '''
 
@@ -1596,6 +1611,7 @@ def emit_module(mod, entry, replace, drop, roots, info_path):
         if fn in ftrans:
             ctor_lines.append('  %s();' % E.gname(fn))
     ctor_lines.append('}')
+    ctor_lines.append('void vf_harness(void) { %s(); }' % E.gname('@' + entry.lstrip('@')))
     o.extend(E.tylines)
     o.extend(gdecl); o.extend(fproto); o.extend(gdef)
     o.extend(tim)
